@@ -203,3 +203,14 @@ CLAIMED['C28'] = dict(
     note="Trusted: vf/symx.py, z3 (enumeration only: names/offsets are dictionary keys). Conflicting merges are outside.",
     technique="solver-driven exhaustive enumeration of bounded API histories of the real class against a model",
     design_ref="DESIGN.md §3 C28")
+
+CLAIMED['C11'] = dict(
+    level='other',
+    text="The real match_expr runs on ~8000 (quick) / ~100000 (thorough) (expression, pattern) pairs from one typed grammar "
+         "(depth<=2, base width 8): all constants on both sides are independent solver variables, jokers replace 1-2 sub-terms "
+         "(also the same joker twice, also expressions mentioning the joker's own identifier), plus near-miss patterns (slice "
+         "bounds, arity, sizes, swapped arguments). For every path returning bindings z3 proves pattern[bindings] == expression "
+         "structurally (canonised) and semantically (refsem) for all constants/valuations.",
+    note="Trusted: z3, vf/refsem.py, vf/symx.py; stubs of the expression layer as in C01.",
+    technique="symbolic execution of the real Python (symbolic constants) + z3 structural and semantic equality per path",
+    design_ref="DESIGN.md §3 C11")
